@@ -28,9 +28,21 @@ def collect(h):
     items.append(("rates_tokens_capped_at_burst", "bool", "true", rel + " advance"))
     rel = "pkg/iratesce/impl.go"
     body = h.func_body(rel, r"^func \(bucket \*bucketType\) reset\(", "bucketType.reset")
-    if not re.search(r"every\(time\.Duration\(int64\(bucket\.state\.Period\)\s*/\s*int64\(bucket\.state\.MaxTokensPerPeriod\)\)\)", body):
+    if not re.search(r"time\.Duration\(int64\(bucket\.state\.Period\)\s*/\s*int64\(bucket\.state\.MaxTokensPerPeriod\)\)", body):
         raise h.Missing(f"{rel}: refill interval is no longer Period / MaxTokensPerPeriod in whole nanoseconds")
     items.append(("rates_interval_is_period_div_count", "bool", "true", rel + " reset"))
+    # F23 repair (7348cd5bb): an interval of 0 ns with Period >= 0 is clamped to 1 ns before every()
+    clamped = re.search(r"if\s+d\s*==\s*0\s*&&\s*bucket\.state\.Period\s*>=\s*0\s*\{[^}]*d\s*=\s*time\.Nanosecond[^}]*\}\s*interval\s*=\s*every\(d\)", body, re.S)
+    direct = re.search(r"interval\s*=\s*every\(time\.Duration\(int64\(bucket\.state\.Period\)", body)
+    if not clamped and not direct:
+        raise h.Missing(f"{rel}: reset: neither the clamped nor the direct form of the refill interval found")
+    items.append(("rates_sub_ns_interval_clamped", "bool", "true" if clamped else "false", rel + " reset"))
+    # F24 repair (4e20ebf0e): the new limiter is primed with min(TakenTokens, MaxTokensPerPeriod)
+    capped = re.search(r"allowN\(now,\s*int\(min\(bucket\.state\.TakenTokens,\s*bucket\.state\.MaxTokensPerPeriod\)\)\)", body)
+    plain = re.search(r"allowN\(now,\s*int\(bucket\.state\.TakenTokens\)\)", body)
+    if not capped and not plain:
+        raise h.Missing(f"{rel}: reset: priming allowN(now, taken) not found in either form")
+    items.append(("rates_taken_capped_at_count", "bool", "true" if capped else "false", rel + " reset"))
     body = h.func_body(rel, r"^func \(b \*bucketsType\) TakeTokens\(", "TakeTokens")
     if not re.search(r"for\s+i\s*:=\s*range\s+keyIdx\s*\{", body) or not re.search(r"bucket\.limiter\.allowN\(t,\s*-n\)", body):
         raise h.Missing(f"{rel}: TakeTokens no longer gives the taken tokens back on refusal")
